@@ -270,6 +270,12 @@ pub const STRS: &[&str] = &[
     "2019", "2020", "12:00", "12:00:00", "1200", "12", "13", "9", "12:00Z", "13:00+01:00", "11:59:59.999999999",
     "2019-12-31T12:00", "2019-12-31T12:00:00", "2019-12-31T12:00Z", "2019-12-31T13:00+01:00", "2019-12-31T12:00:00[Europe/Paris]",
     "true", "1", "1.0", "P1D",
+    // temporal strings whose text order and chronological order differ: signed / 5-digit years (as rendered by
+    // date()/localdatetime()/datetime() outside 0001..9999), offsets, zoned times
+    "-0044-03-15", "-0043-03-15", "-0001-06-01", "-0002-01-01", "-0001-01-01", "+12044-03-15", "9999-12-31", "0001-01-01",
+    "-0044-03-15T10:00", "+12044-03-15T00:00:00", "0001-01-01T00:00",
+    "2019-12-31T23:00+01:00", "2019-12-31T22:30Z", "2020-01-01T00:30+02:00", "-0044-03-15T10:00+01:00",
+    "12:00+02:00", "11:00+00:00", "09:00", "10:00:00",
 ];
 
 pub fn gen_scalar(rng: &mut Rng) -> Value {
